@@ -73,8 +73,8 @@ Theorem executed_is_source requires_met cfg oc o s items :
   let st := run_parts requires_met cfg oc (init_state cfg) 0 ps in
   r_end st = E_running -> r_skipped st = [] ->
   exists (ll : list (label * str)) gs,
-    length ll = length (splitlines (normalize_docstring s)) /\
-    Forall2 SameLineUpToHack ll (splitlines (normalize_docstring s)) /\
+    length ll = length (srclines (normalize_docstring s)) /\
+    Forall2 SameLineUpToHack ll (srclines (normalize_docstring s)) /\
     flatten_chunks gs = map snd ll /\
     r_executed st = seq 0 (length ps) /\
     concat (map exec_lines ps) = concat (map chunk_exec gs).
